@@ -46,6 +46,10 @@ type Source struct {
 	// ExpectApps: for generated models, the application names the reference closure
 	// model predicts (independent of any earlier compilation in this process).
 	ExpectApps []string `json:"expect_apps,omitempty"`
+	// ExpectHas / ExpectHasNot: substrings the serialised result must / must not contain
+	// (an oracle that does not depend on any earlier compilation in this process).
+	ExpectHas    []string `json:"expect_has,omitempty"`
+	ExpectHasNot []string `json:"expect_has_not,omitempty"`
 }
 
 type noRetriever struct{}
@@ -187,6 +191,18 @@ func runPlan(t *testing.T, pl *Plan, picker core.Picker) *runOut {
 	return o
 }
 
+// foreignTwins: two tiny models that import a byte-identical Swagger document under the
+// same application name but different packages; each result must carry its own package.
+func foreignTwins() []*Source {
+	doc := "swagger: \"2.0\"\ninfo:\n  title: Api\n  version: \"1\"\npaths:\n  /p:\n    get:\n      responses:\n        200:\n          description: ok\n"
+	mk := func(team, other string) *Source {
+		return &Source{Name: "main.sysl", Files: map[string]string{
+			"main.sysl": "import api.yaml as " + team + ".Api\n\nMain:\n    E: ...\n", "api.yaml": doc},
+			ExpectHas: []string{"\"" + team + "\""}, ExpectHasNot: []string{"\"" + other + "\""}}
+	}
+	return []*Source{mk("team.one", "team.two"), mk("team.two", "team.one")}
+}
+
 // ---- sources ------------------------------------------------------------------------
 
 func repoDir() string { return core.EnvStr("VERIF_REPO", "/repo") }
@@ -206,8 +222,19 @@ func corpus() []*Source {
 	return out
 }
 
-func generated(seed uint64) *Source {
-	w := importsim.Gen(seed, false)
+// generated: a multi-file model from importsim's generator; broken = with injected
+// content faults (garbage, truncation, flips), so that error paths of the lexer and
+// parser run next to sound compilations.
+func generated(seed uint64, broken bool) *Source {
+	w := importsim.Gen(seed, broken)
+	if broken && seed%2 == 0 {
+		// an unclosed '[' leaves the lexer inside brackets at end of file: the state most
+		// likely to leak into another compilation if lexer states are ever shared or recycled
+		f := w.Files[int(seed/2)%len(w.Files)]
+		if f.Kind == "sysl" {
+			f.Text += "Tail [~x, y=\"z\"\n"
+		}
+	}
 	src := &Source{Name: w.Files[0].Path, Files: map[string]string{}, Depth: w.MaxDepth}
 	for _, f := range w.Files {
 		if !f.Remote && (f.Kind == "sysl" || f.Kind == "pbjson" || f.Kind == "textpb") {
@@ -215,7 +242,7 @@ func generated(seed uint64) *Source {
 		}
 	}
 	e := importsim.Model(w)
-	ok := !e.Conflict
+	ok := !e.Conflict && !broken
 	for _, i := range e.Included {
 		f := w.Files[i]
 		switch {
@@ -241,6 +268,31 @@ type V struct {
 	Detail string
 }
 
+var foreignMemo = map[*Source]bool{}
+
+// importsForeignSpec: the source pulls in an OpenAPI/Swagger/proto document, whose
+// arr.ai-based conversion takes tens of seconds under the race detector.
+func importsForeignSpec(s *Source) bool {
+	if v, ok := foreignMemo[s]; ok {
+		return v
+	}
+	v := false
+	if s.Files == nil {
+		b, _ := os.ReadFile(filepath.Join(s.Root, s.Name))
+		for _, l := range strings.Split(string(b), "\n") {
+			if strings.HasPrefix(l, "import ") && (strings.Contains(l, ".yaml") || strings.Contains(l, ".yml") || strings.Contains(l, ".json") ||
+				strings.Contains(l, ".proto") || strings.Contains(l, "~")) {
+				v = true
+			}
+		}
+		if strings.Contains(s.Name, "openapi") || strings.Contains(s.Name, "swagger") {
+			v = true
+		}
+	}
+	foreignMemo[s] = v
+	return v
+}
+
 func check(pl *Plan, o *runOut, seq map[*Source]string, cnt core.Counters) []V {
 	var vs []V
 	if o.Sched.Deadlock || o.Sched.StepLimit {
@@ -259,6 +311,23 @@ func check(pl *Plan, o *runOut, seq map[*Source]string, cnt core.Counters) []V {
 					i, src.Name, apps, src.ExpectApps, core.Trunc(core.OneLine(got), 160))})
 				continue
 			}
+		}
+		bad := false
+		for _, x := range src.ExpectHas {
+			if !strings.Contains(got, x) {
+				vs = append(vs, V{"result-differs-from-model", fmt.Sprintf("task %d (%s): result lacks %q, which its own text declares (%s)", i, src.Name, x, core.Trunc(core.OneLine(got), 120))})
+				bad = true
+			}
+		}
+		for _, x := range src.ExpectHasNot {
+			if strings.Contains(got, x) {
+				vs = append(vs, V{"result-differs-from-model", fmt.Sprintf("task %d (%s): result contains %q, which only another task's source declares", i, src.Name, x)})
+				bad = true
+			}
+		}
+		if bad || len(src.ExpectHas) > 0 {
+			cnt.Inc("results_checked_against_own_text")
+			continue
 		}
 		if got == want {
 			continue
@@ -379,10 +448,27 @@ func worker(t *testing.T, c core.Cfg) {
 			_ = core.WriteJSON(c.PartPath(c.Worker), part)
 		}
 	}()
+	twinsDone := race || c.Worker != 0
 	for g := c.Worker; time.Now().Before(deadline) && len(part.Violations) < 6; g += nw {
 		seed := core.Derive(c.Seed, "C07", c.Mode, "plan", fmt.Sprint(g))
 		r := core.NewRand(seed)
 		pl := &Plan{Seed: seed}
+		if !twinsDone {
+			// once per run: the slow foreign-import path (an arr.ai conversion takes seconds)
+			twinsDone = true
+			tp := &Plan{Seed: seed, Sources: foreignTwins(), Policy: "uniform", Quantum: 1}
+			o := runPlan(t, tp, makePicker(tp, r.Fork()))
+			part.Evaluations++
+			part.Cases++
+			part.Counters.Inc("foreign_twin_plans")
+			for _, v := range check(tp, o, seq, part.Counters) {
+				p := filepath.Join(core.ReplayDir(), fmt.Sprintf("C07-%s-%s-%d.json", c.Mode, core.SafeName(v.Class), seed))
+				tp.Policy, tp.Picks = "trace", o.Picks
+				_ = core.WriteJSON(p, ReplayFile{Property: "C07", Engine: "compilesim", Mode: c.Mode, Class: v.Class, Detail: v.Detail, Plan: tp})
+				part.Violations = append(part.Violations, core.ViolationRec{Class: v.Class, Detail: v.Detail, Replay: p, Seed: seed})
+				break
+			}
+		}
 		k := r.Range(2, 6)
 		if c.Tier == "thorough" && r.Chance(0.2) {
 			k = r.Range(6, 12)
@@ -393,7 +479,7 @@ func worker(t *testing.T, c core.Cfg) {
 			case len(pool) > 0 && r.Chance(0.25): // the same source in several tasks
 				pool = append(pool, pool[r.Intn(len(pool))])
 			case r.Chance(0.3):
-				pool = append(pool, generated(core.Derive(seed, "gen", fmt.Sprint(i))))
+				pool = append(pool, generated(core.Derive(seed, "gen", fmt.Sprint(i)), r.Chance(0.3)))
 			default:
 				pool = append(pool, all[r.Intn(len(all))])
 			}
@@ -419,7 +505,7 @@ func worker(t *testing.T, c core.Cfg) {
 		} else {
 			var kept []*Source
 			for _, s := range pool {
-				if !slow[s] && !strings.Contains(s.Name, "openapi") && !strings.Contains(s.Name, "swagger") {
+				if !slow[s] && !importsForeignSpec(s) {
 					kept = append(kept, s)
 				}
 			}
